@@ -3166,7 +3166,10 @@ static Token *attribute_list(Token *tok, Type *ty) {
 
       if (consume(&tok, tok, "aligned")) {
         tok = skip(tok, "(");
-        ty->align = const_expr(&tok, tok);
+        int64_t align = const_expr(&tok, tok);
+        if (align <= 0 || (align & (align - 1)) || align > (1 << 28))
+          error_tok(tok, "alignment is not a positive power of two");
+        ty->align = align;
         tok = skip(tok, ")");
         continue;
       }
